@@ -273,6 +273,14 @@ impl Seek for SimReader<'_> {
     fn seek(&mut self, to: SeekFrom) -> io::Result<u64> {
         let fault = self.enter(CallKind::Seek);
         match fault {
+            // nothing retries a failed seek, so for a seek EINTR is a hard
+            // error like any other: every third token uses that kind
+            Some(HardFault::Error) if self.plan.token % 3 == 0 => {
+                return Err(io::Error::new(
+                    io::ErrorKind::Interrupted,
+                    Token(self.plan.token),
+                ))
+            }
             Some(HardFault::Error) => return Err(injected_error(self.plan.token)),
             Some(HardFault::Zero) => self.zero_from_now = true,
             None => {}
